@@ -951,9 +951,17 @@ def map_atoms(p, f):
                 l, r2 = map_atoms(a[2], f), map_atoms(a[3], f)
                 term = term * (Poly.atom(a) if (l == a[2] and r2 == a[3]) else ind(a[1], l, r2))
             else:
-                term = term * Poly.atom(_map_nested(a, f), e)
+                a2 = _map_nested(a, f)
+                if a2 is not a and t in REBUILD:
+                    term = term * (as_poly(REBUILD[t](a2)) ** e)
+                else:
+                    term = term * Poly.atom(a2, e)
         out = out + term
     return out
+
+
+# tag -> function(atom with substituted arguments) -> Poly ; registered by symops for the linear atoms
+REBUILD = {}
 
 
 def _map_nested(a, f):
